@@ -217,6 +217,18 @@ func (c *Classifier) fuseRanges(origin string, matched matchRanges, confidence f
 		}
 	}
 
+	// nextRun[i] is the first index at or after i that lies in a run (a value
+	// out of reach if there is none).
+	nextRun := make([]int, targetSize+1)
+	nextRun[targetSize] = math.MaxInt32
+	for i := targetSize - 1; i >= 0; i-- {
+		if filter[i] {
+			nextRun[i] = i
+		} else {
+			nextRun[i] = nextRun[i+1]
+		}
+	}
+
 	filterDrops := 0
 	filterPasses := 0
 
@@ -244,7 +256,14 @@ func (c *Classifier) fuseRanges(origin string, matched matchRanges, confidence f
 		// If the filter is false, there was not sufficient token density in that
 		// part of the target document for a viable match, so this match is a
 		// spurious hit and can be discarded.
-		if !filter[off] {
+		// A hit whose implied start lies up to the error margin before the
+		// start of a run is still part of that run: the run marks where a
+		// window of the source first reaches the required density, and content
+		// missing from the beginning of the source text shifts individual hits
+		// to slightly earlier offsets. (At the very start of the target this is
+		// what the clamping of negative offsets above achieves; without this
+		// test the outcome would depend on where in the target the text sits.)
+		if nextRun[off]-off > errorMargin {
 			filterDrops++
 			continue
 		}
